@@ -179,6 +179,47 @@ theorem dec_and_test_exactly_one_true {n : Nat} {w0 : BitVec n} {s : BState n (R
       rw [h, BitVec.ofNat_toNat, BitVec.setWidth_eq]
     rw [this]; exact BitVec.sub_self w0
 
+/-! ### the bracket needs its mutex: life cycle of `pp_atomic_mutex`
+
+`bracketed_linearizable` is about threads that all lock ONE mutex.  In the source that mutex is a file-scope
+pointer created by `p_atomic_thread_init`; with the pointer NULL `p_mutex_lock` returns FALSE at once and the
+body runs unprotected.  The translator reads the declaration and the two life-cycle functions
+(`PV.Generated.Atomics.simInit`); these theorems are the facts the bracket relies on. -/
+
+/-- one pointer per process (file-scope `static`, not thread-local), assigned only by init / shutdown -/
+theorem sim_mutex_process_wide : simInit.mutexStatic = true := by decide
+
+/-- after `p_atomic_thread_init` the mutex exists … -/
+theorem sim_init_creates (k : Nat) : simInitStep simInit k none .init = some k := by
+  simp [simInitStep, simInit]
+
+/-- … and any further init call keeps that very mutex (threads that are inside an operation, or start one
+    later, all bracket with the same object) -/
+theorem sim_init_keeps (k m : Nat) : simInitStep simInit k (some m) .init = some m := by
+  simp [simInitStep, simInit]
+
+def runInits : List Nat → Option Nat → Option Nat
+  | [], m => m
+  | k :: ks, m => runInits ks (simInitStep simInit k m .init)
+
+/-- any number of init calls (whatever identities `p_mutex_new` would hand out): the first one's mutex stays -/
+theorem sim_init_idempotent (k : Nat) (ks : List Nat) : runInits (k :: ks) none = some k := by
+  have keep : ∀ (ks : List Nat) (m : Nat), runInits ks (some m) = some m := by
+    intro ks; induction ks with
+    | nil => intro m; rfl
+    | cons a as ih => intro m; simp [runInits, sim_init_keeps, ih]
+  simp [runInits, sim_init_creates, keep]
+
+theorem sim_shutdown_clears (k : Nat) (m : Option Nat) : simInitStep simInit k m .shutdown = none := by
+  simp [simInitStep, simInit]
+
+/-- with the mutex alive every simulated operation makes exactly one native lock and one native unlock call
+    (and none without it): the run-time observable the harness compares (`natives`) -/
+theorem sim_native_calls : simTable.all (fun f => f.nativeCalls true == (1, 1) && f.nativeCalls false == (0, 0)) = true := by decide
+
+/-- `p_atomic_is_lock_free` tells the truth about each back-end -/
+theorem lock_free_truthful : lockFreeC11 = true ∧ lockFreeSync = true ∧ lockFreeSim = false := by decide
+
 /-! ### lock-free back-ends: one builtin call = one step -/
 
 /-- every concurrent history of the lock-free models is the sequential history of the spec operations in
@@ -217,6 +258,10 @@ example : ∃ s : BState 32 (Ret 32), BReach (SimOps 32) 7#32 s ∧ s.owner = so
   have r2 := BReach.step r1 (BStep.call _ 1 p rfl hp)
   have r3 := BReach.step r2 (BStep.lock _ 0 p rfl rfl)
   exact ⟨_, r3, rfl, ⟨p, rfl⟩, by simp [upd, BPC.quiet]⟩
+
+/-- init, init, shutdown, init: the second init keeps mutex 0, the init after a shutdown creates a new one -/
+example : simInitStep simInit 1 (simInitStep simInit 0 none .init) .init = some 0 ∧
+    simInitStep simInit 2 (simInitStep simInit 9 (some 0) .shutdown) .init = some 2 := by decide
 
 /-- `ticket_unique` / `dec_and_test_exactly_one_true` are about inhabited sets of programs -/
 example : IsFetchInc (simProg sim_int_add (1#32) 0) := sim_add_one_isFetchInc (by decide) 0
